@@ -58,9 +58,24 @@ func boundaryInts() []*big.Int {
 	maxF := new(big.Int).Sub(pow(2, 1024), pow(2, 971))
 	pos := []*big.Int{pow(2, 53), add(pow(2, 53), 1), pow(2, 63), pow(2, 64), pow(10, 22), pow(10, 23), add(pow(2, 1023), -1), pow(2, 1023), add(pow(2, 1023), 1),
 		pow(10, 308), maxF, add(maxF, 1), add(pow(2, 1024), -1), pow(2, 1024), pow(10, 309), pow(2, 1000)}
+	pos = append(pos, wordInts()...)
 	out := make([]*big.Int, 0, 2*len(pos))
 	for _, x := range pos {
 		out = append(out, x, new(big.Int).Neg(x))
+	}
+	return out
+}
+
+// wordInts are the non-negative integers around the half-word and word
+// boundaries of machine arithmetic: 2^15, 2^16, sqrt(2^31), 2^31, sqrt(2^63)
+// = 3037000499.98, 2^32, 2^53, 2^62, 2^63.
+func wordInts() []*big.Int {
+	var out []*big.Int
+	for _, s := range []string{"32767", "32768", "32769", "65535", "65536", "65537", "46340", "46341", "2147483647", "2147483648", "2147483649",
+		"3037000499", "3037000500", "3037000501", "4000000000", "4294967295", "4294967296", "4294967297", "9007199254740991", "9007199254740993",
+		"4611686018427387904", "9223372036854775807", "9223372036854775808"} {
+		b, _ := new(big.Int).SetString(s, 10)
+		out = append(out, b)
 	}
 	return out
 }
@@ -561,6 +576,7 @@ func TestC03(t *testing.T) {
 	runRegex(t)
 	runFromJSON(t)
 	universeIntact(t, "fromjson")
+	runWords(t)
 	runSize(t)
 	runTies(t)
 	runUTF8(t)
